@@ -2,10 +2,19 @@
 
 A generator body (list of steps: await a future | yield Value(v)) is turned into a real @async_generator()
 (optionally wrapped in outer generators that iterate it as documented), and a history of caller operations
-(next(gen) / compute the k-th returned future / take_first(gen, n) / list_of_generator(gen) / "par": yield the k-th
-returned future together with a sibling task that advances the generator, so that the advance happens while that
-future has STARTED and is parked on an unflushed batch item) is run on it.  Value payloads include objects that are
-equal to everything and futures (ConstFuture, computed and uncomputed tasks, unflushed batch items).
+(next(gen) / gen.send(x) with x not None / compute the k-th returned future / take_first(gen, n) /
+list_of_generator(gen) / "par": yield the k-th returned future together with a sibling task that advances the
+generator, so that the advance happens while that future has STARTED and is parked on an unflushed batch item) is run
+on it.  Value payloads include odd objects (equal to everything, falsy, refusing bool/eq/hash, Value objects, subclasses
+of built-ins, exception instances and classes) and futures (ConstFuture, computed and uncomputed tasks, unflushed batch
+items).  Round 4 (feature interactions): the body may try to advance the generator that is executing it (`re`:
+[[position, advance], ...], judged by the direct expectation Generator.reenterExpected - no theorem), operations are
+spelled in every public way (next/gen.next/__next__/send.asynq(None)/a stored bound wrapper/copy.copy of it/iter;
+positional, keyword, .asynq in a consumer, .asynq().value()), and harness-only `flags` vary the surroundings without
+changing what the model is asked: thr (every operation on a thread of its own), weak (uncomputed tasks held weakly +
+gc), decoy (a second generator of the same decorated function holds an uncomputed task), dirty (a failed computation
+before), meth (generator function is a method called with a keyword argument), yf (body delegates with yield from),
+dbg (DUMP_* / KEEP_DEPENDENCIES switched on half-way), ret (body returns a value).
 After every operation the result, the number of items the underlying Python generator has yielded, whether it
 ran off its end and whether every await was resumed with the result of the awaited future are recorded.
 The Lean model (AsynqModel.Lib.Generator) replays the same history (correspondence) and the Lean observer
@@ -39,6 +48,11 @@ THEOREMS = [
     "AsynqModel.Generator.C17_nested_loop",
     "AsynqModel.Generator.C17_nested",
     "AsynqModel.Generator.C17_spec_holds",
+    # the rarely used entry point send(x), x not None (round 4): rejected by a generator that has not started without
+    # moving anything, next() otherwise; C17_spec_holds quantifies over histories with send operations
+    "AsynqModel.Generator.C17_send_rejected",
+    "AsynqModel.Generator.C17_send_started",
+    "AsynqModel.Generator.C17_send_then_iterate",
     # why noMarker is a hypothesis (the statement is unsatisfiable without it) and what the code does there
     "AsynqModel.Generator.C17_marker_payload_unsatisfiable",
     "AsynqModel.Generator.C17_marker_payload_behaviour",
@@ -59,14 +73,27 @@ RULE = ("every generator body over {await, Value} of length 0-6 (thorough: 0-8) 
         "(ConstFuture, computed task, uncomputed task, unflushed batch item), plus random bodies of length 7-30 with "
         "random histories and 0-2 levels of nesting; plus (outside the statement, correspondence only) every body of "
         "length 1-4 (thorough 1-5) over {await, Value, Value(END_OF_GENERATOR)} with at least one marker item under the "
-        "same scripted histories (nesting 0, and 1 up to length 3) and about 8% of the random bodies; non-trivial = "
+        "same scripted histories (nesting 0, and 1 up to length 3) and about 8% of the random bodies; ROUND 4: for every "
+        "body up to length 5 (thorough 6; nesting 0, and 1 up to length 3) histories around send(x) for six non-None "
+        "objects x (rejected on the unstarted generator - also after take_first(gen, 0) - then list / take / manual "
+        "iteration; send instead of next later on) and re-entrant advances (next / send / take_first n = 0, 1, 3 / "
+        "list_of_generator attempted by the body itself before every item and after the last one, under list, manual "
+        "and take histories); for every body up to length 4 each harness-only flag (thr, weak, decoy, dirty, meth, yf, "
+        "dbg, ret) on five scripted histories, flags also drawn at random (5-12%) elsewhere; operations spelled at "
+        "random in 7 (next), 3 (send) and 4 (take_first / list_of_generator) public ways; await kinds also: computed "
+        "task, one task awaited at several places, DebugBatchItem; Value items also SubValue(...) and Value(value=...); "
+        "third nesting level (scripted up to length 2, random); bodies of length 300 and 1500 (thorough 6000); non-trivial = "
         "body with at least one await and one Value and a history of at least 2 operations; distinct by (body, await "
         "kinds, nesting, history) hash")
 TRUSTED = [
     "hand-written Lean model AsynqModel.Lib.Generator tied to the code by this differential run only",
     "Python harness checks/c17.py (generator bodies built from step lists, token <-> object identity mapping, pull counter "
     "inside the body)",
-    "CPython generator semantics (send / StopIteration), the asynq scheduler (C01-C05) computing the tasks",
+    "CPython generator semantics (send / StopIteration; TypeError for a non-None value sent to an unstarted generator; "
+    "ValueError for re-entering an executing generator), the asynq scheduler (C01-C05) computing the tasks",
+    "re-entrant advances from the body: judged by the closed-form expectation Generator.reenterExpected evaluated by the "
+    "driver (the model has no state 'the body is executing'; no theorem speaks about this family); the rest of such a "
+    "history is judged by Generator.spec as usual",
 ]
 ASSUMPTIONS = [
     "no Value payload is the END_OF_GENERATOR marker object itself (hypothesis `noMarker b` of C17_list, C17_take, "
@@ -77,6 +104,10 @@ ASSUMPTIONS = [
     "tasks of one generator are computed by the caller that obtained them; a second consumer only ever advances the "
     "generator as a sibling of the pending task in one yield (the scheduler, C03/C04, runs the pending task first and "
     "as far as it gets without flushing a batch); n >= 0 (the code treats n < 0 like 0)",
+    "send(x): the body ignores what `yield Value(...)` evaluates to, so on a started generator send(x) is next(); "
+    "debug options are not switched while a task of the generator exists if they add per-task state "
+    "(COLLECT_PERF_STATS switched on in mid-flight makes older tasks fail with AttributeError - C20's subject); "
+    "asyncio mode (list_of_generator.asyncio(gen)) is outside the statement, which documents the asynq-mode loop",
     "nested generators are outer generators that iterate the inner one as documented (for task in inner: v = yield task; "
     "skip END_OF_GENERATOR; yield Value(v)); their effective body is Generator.wrap of the inner body (Lean: "
     "C17_nested_loop proves that this loop, run over the model of the inner generator, yields exactly `wrap b`; that a "
@@ -107,7 +138,7 @@ def mk_body(shape, rng, kind=None):
     t = 0
     for ch in shape:
         if ch == "a":
-            body.append(["a", rng.randrange(4) if kind is None else kind])
+            body.append(["a", rng.randrange(7) if kind is None else kind])
         elif ch == "e":
             body.append(["e"])
         else:
@@ -116,7 +147,7 @@ def mk_body(shape, rng, kind=None):
             if r < 0.08:
                 body.append(["v", 0])              # Value(None)
             elif r < 0.22:
-                body.append(["v", WILD + (t % 900)])   # a Value that claims to be equal to everything
+                body.append(["v", WILD + (8 * t) % 896 + rng.randrange(8)])   # an odd object (odd_payload: by token % 8)
             elif r < 0.40:
                 body.append(["v", FUT + 4 * t + rng.randrange(4)])   # a Value whose payload is a future
             else:
@@ -168,6 +199,77 @@ def guard_ops(body, stop_at):
 
 
 ADVS = [["next"], ["take", 1], ["list"], ["take", 0], ["take", 2]]
+# re-entrant advances the body may attempt on the generator that is executing it
+RE_ADVS = [["next"], ["send"], ["take", 1], ["list"], ["take", 0], ["take", 3]]
+# how an operation is spelled (all spellings of one operation are the same operation for the model):
+NEXT_FORMS = 7     # next(gen) | gen.next() | gen.__next__() | gen.send.asynq(None) | bound = gen.send (bound once, reused)
+                   # | copy.copy(bound) | next(iter(gen))
+SEND_FORMS = 3     # gen.send.asynq(x) | bound.asynq(x) | gen.send.asynq(value=x)
+SENT_KINDS = 6     # the non-None object sent: plain object | 0 | False | "" | () | an object equal to everything (also to None)
+CALL_FORMS = 4     # take_first(gen, n) | take_first(generator=gen, n=n) | yield take_first.asynq(gen, n) in a consumer task
+                   # | take_first.asynq(gen, n).value()      (the same four for list_of_generator)
+FLAGS = ["thr", "weak", "decoy", "dirty", "meth", "yf", "dbg", "ret"]
+BLOCKING = (2, 3, 6)    # await kinds that cannot complete before the scheduler flushes a batch
+
+
+def send_ops(body, rng):
+    """histories around the rarely used entry point send(x), x not None: rejected (TypeError) by a generator that
+    has not started - after which every Value must still be delivered - and the same as next() afterwards"""
+    L = len(body)
+    nv = n_values(body)
+
+    def snd():
+        return ["send", rng.randrange(SEND_FORMS), rng.randrange(SENT_KINDS)]
+    out = [[snd(), ["list"], snd(), ["next"]],
+           [snd(), snd(), ["take", 0], snd(), ["take", 1], snd(), ["take", max(nv, 1)], snd(), ["list"], snd()],
+           [["take", 0], snd(), ["next"], snd(), ["compute", 0], snd(), ["compute", 1], snd(), ["take", 2], ["list"]]]
+    man = manual_ops(body)
+    out.append([snd()] + [snd() if (o[0] == "next" and i % 4 == 2) else o for i, o in enumerate(man)] + [snd()])
+    if L:
+        out.append([snd(), ["next"], ["par", 0, ["list"]], snd(), ["list"]])
+    return out
+
+
+def reent_cases(body, nest, rng):
+    """the body itself tries to advance the generator that is executing it, before every item and after the last"""
+    L = len(body)
+    out = []
+    for adv in RE_ADVS:
+        re = [[j, adv] for j in range(L + 1)]
+        hs = [[["list"], ["next"]], manual_ops(body, 1),
+              [["take", rng.randint(1, max(1, n_values(body)))], ["next"], ["compute", 0], ["list"], ["take", 1]]]
+        for ops in hs:
+            out.append({"body": body, "nest": nest, "ops": ops, "re": re})
+    # mixed kinds of attempt, only at some positions
+    re = [[j, rng.choice(RE_ADVS)] for j in range(L + 1) if rng.random() < 0.6]
+    if re:
+        out.append({"body": body, "nest": nest, "re": re,
+                    "ops": [["send", 0, 0], ["take", 1], ["next"], ["par", 0, ["next"]], ["list"], ["next"]]})
+    return out
+
+
+def lottery(case, rng, p=0.05):
+    """switch on some of the harness-only dimensions (they do not change what the model is asked)"""
+    fl = [f for f in FLAGS if rng.random() < p]
+    if fl:
+        case["flags"] = fl
+    return case
+
+
+def spell(ops, rng, p=0.3):
+    """choose a spelling for some of the operations"""
+    out = []
+    for o in ops:
+        o = list(o)
+        if rng.random() < p:
+            if o == ["next"]:
+                o = ["next", rng.randrange(NEXT_FORMS)]
+            elif o[0] == "take" and len(o) == 2:
+                o = o + [rng.randrange(CALL_FORMS)]
+            elif o == ["list"]:
+                o = ["list", rng.randrange(CALL_FORMS)]
+        out.append(o)
+    return out
 
 
 def par_ops(body, adv):
@@ -217,9 +319,12 @@ def random_ops(rng, nops):
         elif r < 0.78 and k:
             ops.append(["par", k - 1 if rng.random() < 0.8 else rng.randrange(k), rng.choice(ADVS)])
             k += 1  # the sibling may have obtained a future (if not, later indices are merely stale)
-        elif r < 0.92:
+        elif r < 0.86:
             n = rng.choice([0, 1, 1, 2, 2, 3, 4, 6, 9])
             ops.append(["take", n])
+        elif r < 0.93:
+            ops.append(["send", rng.randrange(SEND_FORMS), rng.randrange(SENT_KINDS)])
+            k += 1
         else:
             ops.append(["list"])
     return ops
@@ -233,8 +338,16 @@ def gen_case(rng, length=None):
         shape = "".join("e" if ch == "v" and rng.random() < 0.4 else ch for ch in shape)
     kind = rng.choice([None, None, 0, 2])
     body = mk_body(shape, rng, kind)
-    nest = rng.choice([0, 0, 0, 1, 1, 2])
-    return {"body": body, "nest": nest, "ops": random_ops(rng, rng.choice([1, 2, 3, 4, 6, 8, 12]))}
+    nest = rng.choice([0, 0, 0, 0, 1, 1, 2, 2, 3])
+    ops = random_ops(rng, rng.choice([1, 2, 3, 4, 6, 8, 12]))
+    if rng.random() < 0.25:     # a history that starts with send(x) on the generator that has not started
+        ops = [["send", rng.randrange(SEND_FORMS), rng.randrange(SENT_KINDS)] for _ in range(rng.choice([1, 1, 2]))] + ops
+    case = {"body": body, "nest": nest, "ops": spell(ops, rng, 0.4)}
+    if rng.random() < 0.2 and not has_marker(body):
+        re = [[j, rng.choice(RE_ADVS)] for j in range(L + 1) if rng.random() < 0.4]
+        if re:
+            case["re"] = re
+    return lottery(case, rng, 0.12)
 
 
 def corpus():
@@ -255,13 +368,31 @@ def plan(tier, seed):
     for L in range(0, maxlen + 1):
         for shape in itertools.product("va", repeat=L):
             shape = "".join(shape)
-            kinds = [None, 2] if tier == "quick" else [None, 0, 1, 2, 3]
+            kinds = [None, 2] if tier == "quick" else [None, 0, 1, 2, 3, 6]
             for kind in kinds:
                 cases += scripted(mk_body(shape, rng, kind), rng, 0)
             if L <= 4:
                 cases += scripted(mk_body(shape, rng, None), rng, 1)
             if L <= 3:
                 cases += scripted(mk_body(shape, rng, None), rng, 2)
+            if L <= 2:
+                cases += scripted(mk_body(shape, rng, None), rng, 3)      # third level of nesting
+            # round 4: the entry point send(x), re-entrant advances from the body, other spellings of the operations
+            # and the harness-only dimensions (threads, weakly held tasks + gc, a second generator of the same
+            # decorated function, leftover state, methods/kwargs, yield from, debug options switched on mid-flight)
+            if L <= (5 if tier == "quick" else 6):
+                for nest in ([0, 1] if L <= 3 else [0]):
+                    b = mk_body(shape, rng, None)
+                    cases += [lottery({"body": b, "nest": nest, "ops": spell(ops, rng)}, rng) for ops in send_ops(b, rng)]
+                    b = mk_body(shape, rng, rng.choice([None, 2]))
+                    cases += [lottery(c, rng) for c in reent_cases(b, nest, rng)]
+            if L <= 4:
+                b = mk_body(shape, rng, None)
+                for fl in FLAGS:
+                    for c in scripted(b, rng, 0)[:3] + scripted(b, rng, 0)[-2:]:
+                        c["flags"] = [fl] + [f for f in FLAGS if f != fl and rng.random() < 0.15]
+                        c["ops"] = spell(c["ops"], rng, 0.5)
+                        cases.append(c)
     # outside the statement (correspondence only): bodies with a Value(END_OF_GENERATOR) item
     for L in range(1, (4 if tier == "quick" else 5) + 1):
         for shape in itertools.product("vae", repeat=L):
@@ -271,38 +402,81 @@ def plan(tier, seed):
             cases += scripted(mk_body(shape, rng, None), rng, 0)
             if L <= 3:
                 cases += scripted(mk_body(shape, rng, None), rng, 1)
+    # sizes: long bodies (the loops of _send_inner / list_of_generator / take_first are loops, not recursion)
+    for L in ([300, 1500] if tier == "quick" else [300, 1500, 6000]):
+        for pat in ("v", "a", "av", "aav", "vva"):
+            shape = (pat * (L // len(pat) + 1))[:L]
+            b = [["a", [0, 2, 1][j % 3]] if ch == "a" else ["v", 1 + j % 40] for j, ch in enumerate(shape)]
+            nv = n_values(b)
+            cases.append({"body": b, "nest": 0, "ops": [["take", 0], ["take", nv // 2], ["next"], ["take", nv], ["next"]]})
+            cases.append({"body": b, "nest": 0, "ops": [["send", 0, 0], ["list"], ["next"]]})
+            if L <= 300:
+                cases.append({"body": b, "nest": 2, "ops": [["take", 1], ["list"], ["next"]]})
     n = 2500 if tier == "quick" else 40000
     cases += [gen_case(rng) for _ in range(n)]
     return cases
 
 
+def _mk(case, **kw):
+    c = {k: v for k, v in case.items() if k != "id"}
+    c.update(kw)
+    for k in ("re", "flags"):
+        if k in c and not c[k]:
+            del c[k]
+    return c
+
+
+def _re_without(re, j):
+    """the re-entrant attempts after item j of the body has been removed (one attempt per position)"""
+    out, seen = [], set()
+    for x in re:
+        pos = x[0] - 1 if x[0] > j else x[0]
+        if pos not in seen:
+            seen.add(pos)
+            out.append([pos, x[1]])
+    return out
+
+
 def shrink(case):
     body, ops, nest = case["body"], case["ops"], case["nest"]
+    re = case.get("re", [])
+    flags = case.get("flags", [])
+    for f in flags:
+        yield _mk(case, flags=[g for g in flags if g != f])
+    if re:
+        yield _mk(case, re=[])
+        for i in range(len(re)):
+            yield _mk(case, re=re[:i] + re[i + 1:])
     for i in range(len(ops) - 1, -1, -1):
-        yield {"body": body, "nest": nest, "ops": ops[:i] + ops[i + 1:]}
+        yield _mk(case, ops=ops[:i] + ops[i + 1:])
     if nest:
-        yield {"body": body, "nest": nest - 1, "ops": ops}
+        yield _mk(case, nest=nest - 1)
     for j in range(len(body)):
-        yield {"body": body[:j] + body[j + 1:], "nest": nest, "ops": ops}
+        yield _mk(case, body=body[:j] + body[j + 1:], re=_re_without(re, j))
     for i, op in enumerate(ops):
         if op[0] == "take" and op[1] > 1:
-            yield {"body": body, "nest": nest, "ops": ops[:i] + [["take", op[1] - 1]] + ops[i + 1:]}
+            yield _mk(case, ops=ops[:i] + [["take", op[1] - 1] + op[2:]] + ops[i + 1:])
+        if (op[0] in ("next", "list") and len(op) > 1) or (op[0] == "take" and len(op) > 2):
+            yield _mk(case, ops=ops[:i] + [op[:2] if op[0] == "take" else op[:1]] + ops[i + 1:])
+        if op[0] == "send" and op[1:] not in ([], [0, 0]):
+            yield _mk(case, ops=ops[:i] + [["send", 0, 0]] + ops[i + 1:])
     for j, s in enumerate(body):
         if s[0] == "a" and s[1] != 0:
-            yield {"body": body[:j] + [["a", 0]] + body[j + 1:], "nest": nest, "ops": ops}
+            yield _mk(case, body=body[:j] + [["a", 0]] + body[j + 1:])
         if s[0] == "v" and s[1] >= WILD:
-            yield {"body": body[:j] + [["v", 1 + j]] + body[j + 1:], "nest": nest, "ops": ops}
+            yield _mk(case, body=body[:j] + [["v", 1 + j]] + body[j + 1:])
     for i, op in enumerate(ops):
         if op[0] == "par":
-            yield {"body": body, "nest": nest, "ops": ops[:i] + [["compute", op[1]]] + ops[i + 1:]}
-            yield {"body": body, "nest": nest, "ops": ops[:i] + [["compute", op[1]], op[2]] + ops[i + 1:]}
+            yield _mk(case, ops=ops[:i] + [["compute", op[1]]] + ops[i + 1:])
+            yield _mk(case, ops=ops[:i] + [["compute", op[1]], op[2]] + ops[i + 1:])
 
 
 def neighbours(case, rng):
     body, ops, nest = case["body"], case["ops"], case["nest"]
     for n in range(0, len(body) + 2):
-        yield {"body": body, "nest": nest, "ops": ops + [["take", n], ["list"]]}
-    yield {"body": body, "nest": nest, "ops": ops + manual_ops(body)}
+        yield _mk(case, ops=ops + [["take", n], ["list"]])
+    yield _mk(case, ops=ops + manual_ops(body))
+    yield _mk(case, ops=[["send", 0, 0]] + ops + [["list"]])
     for _ in range(24):
         b = [list(s) for s in body]
         o = [list(x) for x in ops]
@@ -315,12 +489,16 @@ def neighbours(case, rng):
         elif o:
             o[rng.randrange(len(o))] = random_ops(rng, 1)[0]
         o.insert(rng.randint(0, len(o)), random_ops(rng, 1)[0])
-        yield {"body": b, "nest": nest, "ops": o}
+        # re-entrant attempts: keep those whose position still exists
+        yield _mk(case, body=b, ops=o, re=[x for x in case.get("re", []) if x[0] <= len(b)])
 
 
 def signature(case, v):
     # the failing clause and the kind of operation it fails at, e.g. "fail:guard@take" or "fail:take-zero@take0"
-    # (for a body with a marker payload only "fail:end-marker" / "fail:await-result" are possible)
+    # (for a body with a marker payload only "fail:end-marker" / "fail:await-result" are possible); round 4:
+    # "fail:send-rejected@send", "fail:<next clause>@send", "fail:reenter-guard@<advance>" (the body's own advance was not
+    # refused with RuntimeError while the running task is uncomputed), "fail:reenter-rejected@<advance>" (not refused inside
+    # send()), "fail:reenter-take-zero@take0", "fail:generator-arguments@..", "fail:other-generator-disturbed@.."
     return v["spec"]
 
 
@@ -349,35 +527,115 @@ class Plain(object):
         self.t = t
 
 
+class Falsy(object):
+    """false in a boolean context and of length 0"""
+
+    def __init__(self, t):
+        self.t = t
+
+    def __bool__(self):
+        return False
+
+    def __len__(self):
+        return 0
+
+
+class Touchy(object):
+    """refuses to be tested, compared or hashed (a Value payload is only ever handed on)"""
+
+    def __init__(self, t):
+        self.t = t
+
+    def __bool__(self):
+        raise AssertionError("payload tested for truth")
+
+    def __eq__(self, other):
+        raise AssertionError("payload compared")
+
+    def __ne__(self, other):
+        raise AssertionError("payload compared")
+
+    def __hash__(self):
+        raise AssertionError("payload hashed")
+
+    def __len__(self):
+        raise AssertionError("payload measured")
+
+    def __iter__(self):
+        raise AssertionError("payload iterated")
+
+
+class EmptyList(list):
+    pass
+
+
+class ZeroInt(int):
+    pass
+
+
+def odd_payload(t, Value):
+    """the objects behind the value tokens WILD..FUT-1, by t % 8"""
+    k = t % 8
+    if k == 0:
+        return Wild(t)
+    if k == 1:
+        return Falsy(t)
+    if k == 2:
+        return Touchy(t)
+    if k == 3:
+        return Value(Plain(t))          # the payload is itself a Value object
+    if k == 4:
+        return EmptyList()              # falsy subclass of a built-in, equal to every other empty list
+    if k == 5:
+        return ZeroInt(0)               # equal to 0 and False
+    if k == 6:
+        return StopIteration(t)         # an exception INSTANCE as data
+    return type("Exit%d" % t, (GeneratorExit,), {})      # a BaseException-only CLASS as data
+
+
 def run_case(case):
+    import copy
+    import gc
+    import io
+    import sys
+    import threading
+    import weakref
+
     import asynq
     from asynq import batching, futures
     from asynq.generator import END_OF_GENERATOR, Value, async_generator, list_of_generator, take_first
 
     body, nest, ops = case["body"], case["nest"], case["ops"]
+    re_at = {x[0]: x[1] for x in case.get("re", [])}
+    flags = set(case.get("flags", []))
 
     # ---- a batch kind of the harness: an await on one of its items blocks until the scheduler flushes it
+    def batch_kind(state):
+        class HBatch(batching.BatchBase):
+            def _try_switch_active_batch(self):
+                if state["batch"] is self:
+                    state["batch"] = None
+
+            def _flush(self):
+                state["flushes"] += 1
+                for it in self.items:
+                    it.set_value(it.answer)
+
+            def _cancel(self):
+                pass
+
+        class HItem(batching.BatchItemBase):
+            def __init__(self, answer):
+                if state["batch"] is None:
+                    state["batch"] = HBatch()
+                super(HItem, self).__init__(state["batch"])
+                self.answer = answer
+
+        return HItem
+
     state = {"batch": None, "flushes": 0}
-
-    class HBatch(batching.BatchBase):
-        def _try_switch_active_batch(self):
-            if state["batch"] is self:
-                state["batch"] = None
-
-        def _flush(self):
-            state["flushes"] += 1
-            for it in self.items:
-                it.set_value(it.answer)
-
-        def _cancel(self):
-            pass
-
-    class HItem(batching.BatchItemBase):
-        def __init__(self, answer):
-            if state["batch"] is None:
-                state["batch"] = HBatch()
-            super(HItem, self).__init__(state["batch"])
-            self.answer = answer
+    HItem = batch_kind(state)
+    HItem2 = batch_kind({"batch": None, "flushes": 0})     # for everything that is not the generator under test
 
     @asynq.asynq()
     def echo(x):
@@ -388,6 +646,30 @@ def run_case(case):
         r = yield HItem(x)
         return r
 
+    if "dirty" in flags:
+        # leftover state: a computation on this thread has just failed half-way (a sibling parked on a batch item)
+        @asynq.asynq()
+        def boom():
+            yield echo.asynq(1)
+            raise KeyError("boom")
+
+        @asynq.asynq()
+        def parked():
+            return (yield HItem2(2))
+
+        @asynq.asynq()
+        def failing():
+            yield boom.asynq(), parked.asynq()
+
+        sink = (asynq.debug.stdout, asynq.debug.stderr)
+        asynq.debug.stdout = asynq.debug.stderr = io.StringIO()     # the library dumps the error; not our subject
+        try:
+            failing()
+        except KeyError:
+            pass
+        finally:
+            asynq.debug.stdout, asynq.debug.stderr = sink
+
     vals = {}
     for s in body:
         if s[0] == "v":
@@ -397,7 +679,7 @@ def run_case(case):
             elif t < WILD:
                 vals[t] = Plain(t)
             elif t < FUT:
-                vals[t] = Wild(t)
+                vals[t] = odd_payload(t, Value)
             elif t % 4 == 0:
                 vals[t] = futures.ConstFuture(Plain(t))
             elif t % 4 == 1:
@@ -408,15 +690,49 @@ def run_case(case):
             else:
                 vals[t] = HItem(Plain(t))
     val_tok = {id(v): t for t, v in vals.items() if v is not None}
+    SENT = [Plain(-1), 0, False, "", (), Wild(-2)]       # none of them is None
 
-    pulls = [0] * (nest + 1)
-    fin = [False] * (nest + 1)
     bad = [0]
+    relog = []
+    shared = {}
 
-    @async_generator()
-    def base():
-        for j, s in enumerate(body):
-            pulls[0] += 1
+    class SubValue(Value):
+        """a subclass of Value is a Value"""
+
+    def attempt(st, j):
+        """code called by the body tries to advance the generator that is executing the body, and is told off"""
+        adv = re_at.get(j) if st["main"] else None
+        if adv is None:
+            return
+        g = st["gen"]
+        try:
+            if adv[0] == "next":
+                f = next(g)
+                st["stray"].append(f)
+                out = futres(f)
+            elif adv[0] == "send":
+                f = g.send.asynq(SENT[j % len(SENT)])
+                st["stray"].append(f)
+                out = futres(f)
+            elif adv[0] == "take":
+                out = lst(take_first(g, adv[1]))
+            else:
+                out = lst(list_of_generator(g))
+        except StopIteration:
+            out = "(raised StopIteration)"
+        except RuntimeError:
+            out = "(raised RuntimeError)"
+        except Exception as e:  # noqa
+            out = "(raised other %s)" % type(e).__name__
+        relog.append("(%d %s %s)" % (j, sx(adv), out))
+
+    def body_fn(steps, st, tag=None):
+        """the generator function: one `yield` per step; what runs between two yields is the code `before item j`"""
+        if tag is not st["tag"]:
+            bad[0] += 100                 # the keyword argument did not arrive (Lean: badClause)
+        for j, s in enumerate(steps):
+            attempt(st, j)
+            st["pulls"] += 1
             if s[0] == "a":
                 expected = Plain(-j)
                 k = s[1]
@@ -425,20 +741,63 @@ def run_case(case):
                 elif k == 1:
                     f = echo.asynq(expected)
                 elif k == 2:
-                    f = HItem(expected)
+                    f = st["item"](expected)
+                elif k == 3:
+                    f = echo_via_batch.asynq(expected) if st["main"] else echo.asynq(expected)
+                elif k == 4:
+                    f = echo.asynq(expected)      # a task that has been computed before it is awaited
+                    f.value()
+                elif k == 6:
+                    # the library's own DebugBatchItem (a batch name of its own per case: the registry is global)
+                    f = batching.DebugBatchItem("c17-%d-%d" % (case["id"], id(state)), expected)
                 else:
-                    f = echo_via_batch.asynq(expected)
+                    # ONE task awaited at several places of the body (second use of the same future)
+                    if "task" not in shared:
+                        shared["obj"] = Plain(-1000)
+                        shared["task"] = echo.asynq(shared["obj"])
+                    f, expected = shared["task"], shared["obj"]
                 got = yield f
                 if got is not expected:
                     bad[0] += 1
             elif s[0] == "e":
                 yield Value(END_OF_GENERATOR)      # the payload is the marker object itself
+            elif st["main"] and s[1] % 5 == 4:
+                yield SubValue(vals[s[1]])
+            elif st["main"] and s[1] % 5 == 3:
+                yield Value(value=vals[s[1]])
             else:
-                yield Value(vals[s[1]])
-        fin[0] = True
+                yield Value(vals[s[1]] if st["main"] else s[1])
+        attempt(st, len(steps))
+        st["fin"] = True
+        if "ret" in flags:
+            return st["tag"]               # StopIteration with a value
 
-    @async_generator()
-    def outer(inner, level):
+    def delegating_fn(steps, st, tag=None):
+        """a body that delegates to a sub-generator"""
+        yield from body_fn(steps, st, tag=tag)
+
+    fn = delegating_fn if "yf" in flags else body_fn
+
+    # ONE decorator object serves every generator function of the case
+    dec = async_generator()
+
+    class Holder(object):
+        """the generator function as a method (the decorated function only has to RETURN a generator)"""
+
+        @dec
+        def gen_m(self, steps, st, tag=None):
+            return fn(steps, st, tag=tag)
+
+    base = Holder().gen_m if "meth" in flags else dec(fn)
+
+    def new_st(main, item):
+        return {"main": main, "item": item, "pulls": 0, "fin": False, "gen": None, "stray": [], "tag": Plain(-7)}
+
+    st0 = new_st(True, HItem)
+    pulls = [0] * (nest + 1)
+    fin = [False] * (nest + 1)
+
+    def outer_plain(inner, level):
         # the documented way of consuming an async generator, re-yielding its Values
         for task in inner:
             pulls[level] += 1
@@ -449,9 +808,46 @@ def run_case(case):
             yield Value(value)
         fin[level] = True
 
-    gen = base()
+    outer = dec(outer_plain)
+
+    gen = base(body, st0, tag=st0["tag"])
+    st0["gen"] = gen          # the innermost generator: the one the body re-enters
     for level in range(1, nest + 1):
         gen = outer(gen, level)
+
+    def cur_pulls():
+        return st0["pulls"] if nest == 0 else pulls[nest]
+
+    def cur_fin():
+        return st0["fin"] if nest == 0 else fin[nest]
+
+    # a second generator made by the same decorated function (and the same decorator object): its state is its own
+    decoy = None
+    if "decoy" in flags:
+        dsteps = [["a", 2], ["v", 1], ["a", 0], ["a", 2], ["v", 2], ["v", 3], ["a", 2]] * 12
+        dst = new_st(False, HItem2)
+        decoy = {"gen": base(dsteps, dst, tag=dst["tag"]), "task": None, "want": [1, 2, 3] * 12, "got": []}
+
+    def decoy_step():
+        """leave the OTHER generator with an uncomputed task while the generator under test is used"""
+        d = decoy
+        try:
+            if d["task"] is not None:
+                v = d["task"].value()
+                d["task"] = None
+                if v is not END_OF_GENERATOR:
+                    d["got"].append(v)
+            f = next(d["gen"])
+            if f.is_computed():
+                d["got"].append(f.value())
+            else:
+                d["task"] = f
+            if d["got"] != d["want"][:len(d["got"])]:
+                bad[0] += 10000
+        except StopIteration:
+            pass
+        except Exception:  # noqa   the other generator was disturbed
+            bad[0] += 10000
 
     def tok(v):
         if v is END_OF_GENERATOR:
@@ -508,49 +904,177 @@ def run_case(case):
             r2 = "(raised %s)" % second[1]
         return "(item %s)" % tok(first), "(sib %d %s)" % (1 if info.get("kdone") else 0, r2)
 
-    bs = " ".join("(a %d)" % (1 if s[1] >= 2 else 0) if s[0] == "a" else ("(ve)" if s[0] == "e" else "(v %d)" % s[1])
+    bound_send = gen.send          # a bound wrapper, made once and used again and again
+
+    def do_next(form):
+        if form == 0:
+            return next(gen)
+        if form == 1:
+            return gen.next()
+        if form == 2:
+            return gen.__next__()
+        if form == 3:
+            return gen.send.asynq(None)
+        if form == 4:
+            return bound_send.asynq(None)
+        if form == 5:
+            return copy.copy(bound_send).asynq(None)
+        return next(iter(gen))
+
+    def do_send(form, x):
+        if form == 0:
+            return gen.send.asynq(x)
+        if form == 1:
+            return bound_send.asynq(x)
+        return gen.send.asynq(value=x)
+
+    def do_call(fn, form, *args):
+        names = ("generator", "n")
+        if form == 0:
+            return fn(*args)
+        if form == 1:
+            return fn(**dict(zip(names, args)))
+        if form == 2:
+            @asynq.asynq()
+            def consumer():
+                r = yield fn.asynq(*args)
+                return r
+            return consumer()
+        return fn.asynq(*args).value()
+
+    def keep(f):
+        """the caller's reference to a returned future; with `weak` an uncomputed task is only held weakly until
+        it is used - the generator's own `last_task` is then what keeps it alive"""
+        if "weak" in flags and not f.is_computed():
+            try:
+                held.append(weakref.ref(f))
+                dropped[0] = True
+                return
+            except TypeError:
+                pass
+        held.append(f)
+
+    def fetch(k):
+        f = held[k]
+        if isinstance(f, weakref.ref):
+            f = f()
+            if f is None:
+                raise LookupError("the uncomputed task was garbage collected")
+            held[k] = f
+        return f
+
+    def perform(op):
+        name = op[0]
+        sib = "-"
+        if name == "next":
+            f = do_next(op[1] if len(op) > 1 else 0)
+            res = futres(f)
+            keep(f)
+        elif name == "send":
+            f = do_send(op[1] if len(op) > 1 else 0, SENT[(op[2] if len(op) > 2 else 0) % len(SENT)])
+            res = futres(f)
+            keep(f)
+        elif name == "compute":
+            res = "(item %s)" % tok(fetch(op[1]).value())
+        elif name == "take":
+            res = lst(do_call(take_first, op[2] if len(op) > 2 else 0, gen, op[1]))
+        elif name == "list":
+            res = lst(do_call(list_of_generator, op[1] if len(op) > 1 else 0, gen))
+        elif name == "par":
+            res, sib = run_par(fetch(op[1]), op[2])
+        else:
+            raise ValueError(name)
+        return res, sib
+
+    def in_thread(fn):
+        box = {}
+
+        def target():
+            try:
+                box["r"] = fn()
+            except BaseException as e:  # noqa
+                box["e"] = e
+
+        t = threading.Thread(target=target)
+        t.start()
+        t.join()
+        if "e" in box:
+            raise box["e"]
+        return box["r"]
+
+    dbg_at = len(ops) // 2 if "dbg" in flags else -1
+    saved_opts = None
+
+    bs = " ".join("(a %d)" % (1 if s[1] in BLOCKING else 0) if s[0] == "a" else ("(ve)" if s[0] == "e" else "(v %d)" % s[1])
                   for s in body)
-    lines = ["(case generator %d (body %s) (nest %d))" % (case["id"], bs, nest)]
+    lines = ["(case generator %d (body %s) (nest %d)%s)" % (
+        case["id"], bs, nest,
+        " (reent %s)" % " ".join("(%d %s)" % (j, sx(re_at[j])) for j in sorted(re_at)) if re_at else "")]
     held = []
+    dropped = [False]
     guard_hits = 0
     stops = 0
     pars = 0
     parked = 0
-    for op in ops:
-        name = op[0]
-        op = list(op)
-        if name in ("compute", "par") and op[1] < 0:
-            op[1] = max(len(held) - 1, 0)      # "the most recent future"
-        sib = "-"
-        try:
-            if name == "next":
-                f = next(gen)
-                held.append(f)
-                res = futres(f)
-            elif name == "compute":
-                res = "(item %s)" % tok(held[op[1]].value())
-            elif name == "take":
-                res = lst(take_first(gen, op[1]))
-            elif name == "list":
-                res = lst(list_of_generator(gen))
-            elif name == "par":
-                res, sib = run_par(held[op[1]], op[2])
-                pars += 1
-                if sib.startswith("(sib 0"):
-                    parked += 1
-            else:
-                raise ValueError(name)
-        except StopIteration:
-            res = "(raised StopIteration)"
-            stops += 1
-        except RuntimeError:
-            res = "(raised RuntimeError)"
-            guard_hits += 1
-        except Exception as e:  # the outcome of the operation, not a harness failure
-            res = "(raised other %s)" % type(e).__name__
-        if "(raised RuntimeError)" in sib:
-            guard_hits += 1
-        lines.append("(obs %s %s %s %d %d %d)" % (sx(op), res, sib, pulls[nest], 1 if fin[nest] else 0, bad[0]))
+    rejected = 0
+    try:
+        for i, op in enumerate(ops):
+            if i == dbg_at:
+                # debug / profiling options switched on in mid-flight (diagnostic output is swallowed by the worker)
+                o = asynq.debug.options
+                names = [n for n in dir(o) if (n.startswith("DUMP_") or n == "KEEP_DEPENDENCIES")
+                         and isinstance(getattr(o, n), bool)]      # (a cdef class in the compiled build: no __dict__)
+                saved_opts = ({n: getattr(o, n) for n in names}, sys.stderr, asynq.debug.stdout, asynq.debug.stderr)
+                # the DUMP_* options write to asynq.debug.stdout / stderr: keep that out of the worker's pipes
+                sys.stderr = asynq.debug.stdout = asynq.debug.stderr = io.StringIO()
+                for n in names:
+                    setattr(o, n, True)
+                # (not COLLECT_PERF_STATS: a task created before it is switched on has no `_id` and fails with
+                #  AttributeError in collect_perf_stats when it completes - a defect of the profiling option, which is
+                #  C20's subject, not a statement of C17; reported in INTEGRATION.md)
+            if decoy is not None:
+                decoy_step()
+            name = op[0]
+            op = list(op)
+            if name in ("compute", "par") and op[1] < 0:
+                op[1] = max(len(held) - 1, 0)      # "the most recent future"
+            sib = "-"
+            try:
+                if "thr" in flags:
+                    res, sib = in_thread(lambda: perform(op))      # every operation on a thread of its own
+                else:
+                    res, sib = perform(op)
+                if name == "par":
+                    pars += 1
+                    if sib.startswith("(sib 0"):
+                        parked += 1
+            except StopIteration:
+                res = "(raised StopIteration)"
+                stops += 1
+            except RuntimeError:
+                res = "(raised RuntimeError)"
+                guard_hits += 1
+            except Exception as e:  # the outcome of the operation, not a harness failure
+                res = "(raised other %s)" % type(e).__name__
+                if name == "send" and isinstance(e, TypeError):
+                    rejected += 1
+            if "(raised RuntimeError)" in sib:
+                guard_hits += 1
+            if dropped[0]:
+                dropped[0] = False
+                gc.collect()     # nothing but the generator's `last_task` refers to the uncomputed task now
+            lean_op = [name] if name in ("next", "send", "list") else (op[:2] if name == "take" else op)
+            extra = ""
+            if re_at:
+                extra = " (re %d %d%s)" % (st0["pulls"], 1 if st0["fin"] else 0, "".join(" " + x for x in relog))
+                del relog[:]
+            lines.append("(obs %s %s %s %d %d %d%s)" % (sx(lean_op), res, sib, cur_pulls(), 1 if cur_fin() else 0, bad[0],
+                                                        extra))
+    finally:
+        if saved_opts is not None:
+            for n, v in saved_opts[0].items():
+                setattr(asynq.debug.options, n, v)
+            sys.stderr, asynq.debug.stdout, asynq.debug.stderr = saved_opts[1:]
     lines.append("(end)")
 
     nv = n_values(body)
@@ -566,8 +1090,11 @@ def run_case(case):
     if has_marker(body):
         feats.append("marker-payload(outside C17: correspondence only)")
     feats += sorted({"await-kind=%d" % s[1] for s in body if s[0] == "a"})
-    if any(s[0] == "v" and WILD <= s[1] < FUT for s in body):
-        feats.append("value-eq-everything")
+    feats += sorted({"value-odd:%s" % ("eq-everything", "falsy", "refuses-bool-eq-hash", "is-a-Value", "empty-list-subclass",
+                                       "int-subclass-0", "StopIteration-instance", "GeneratorExit-class")[s[1] % 8]
+                     for s in body if s[0] == "v" and WILD <= s[1] < FUT})
+    if any(s[0] == "v" and s[1] % 5 == 4 for s in body):
+        feats.append("item-is-Value-subclass")
     feats += sorted({"value-is-future:%s" % ("ConstFuture", "computed-task", "uncomputed-task", "unflushed-item")[s[1] % 4]
                      for s in body if s[0] == "v" and s[1] >= FUT})
     if pars:
@@ -580,7 +1107,19 @@ def run_case(case):
     if any(s[0] == "v" and s[1] == 0 for s in body):
         feats.append("value-None")
     feats += sorted({"op=" + o[0] for o in ops})
-    if any(o[0] == "compute" and o[1] >= sum(1 for p in ops if p[0] in ("next", "par")) for o in ops):
+    feats += sorted({"flag=" + f for f in flags})
+    feats += sorted({"next-spelling=%d" % o[1] for o in ops if o[0] == "next" and len(o) > 1})
+    feats += sorted({"send-spelling=%d" % o[1] for o in ops if o[0] == "send" and len(o) > 1})
+    feats += sorted({"sent-object=%d" % o[2] for o in ops if o[0] == "send" and len(o) > 2})
+    feats += sorted({"call-spelling=%d" % o[-1] for o in ops if (o[0] == "take" and len(o) > 2) or (o[0] == "list" and len(o) > 1)})
+    if rejected:
+        feats.append("send:rejected-by-unstarted-generator")
+    if any(o[0] == "send" for o in ops) and rejected < sum(1 for o in ops if o[0] == "send"):
+        feats.append("send:not-rejected")
+    if re_at:
+        feats.append("reenter")
+        feats += sorted({"reenter-adv=" + a[0] + ("0" if a == ["take", 0] else "") for a in re_at.values()})
+    if any(o[0] == "compute" and o[1] >= sum(1 for p in ops if p[0] in ("next", "par", "send")) for o in ops):
         feats.append("malformed:compute-unknown-future")
     for o in ops:
         if o[0] == "take":
@@ -596,5 +1135,5 @@ def run_case(case):
     feats = sorted(set(feats))
     nontrivial = None
     if nv >= 1 and nv < L and len(ops) >= 2:
-        nontrivial = hashlib.sha1(json.dumps([body, nest, ops]).encode()).hexdigest()[:16]
+        nontrivial = hashlib.sha1(json.dumps([body, nest, ops, case.get("re"), case.get("flags")]).encode()).hexdigest()[:16]
     return {"lines": lines, "features": feats, "nontrivial": nontrivial}
